@@ -457,3 +457,46 @@ fn c17_reply_len_formula_matches_reference() {
     assert!(r.len == reply_len(1, 1, 1, 1, Some(20), 2), "C17: size formula disagrees with the reference encoder");
     kani::cover!(true, "end of harness reached");
 }
+
+// ---------------------------------------------------------------------------------------------
+// C13 (layer 2, messages): btdht's Deserialize impls driven by a parsed bencode value
+// (crate::verif::Val mirrors how the bencode library calls serde visitors).
+// ---------------------------------------------------------------------------------------------
+
+use crate::verif::{NoMsg, Val};
+use serde::Deserialize;
+
+fn decode_val(v: Val) -> Result<Message, NoMsg> {
+    Message::deserialize(v)
+}
+
+/// ping query, keys in canonical order
+#[kani::proof]
+#[kani::unwind(24)]
+#[kani::stub(alloc::fmt::format, crate::verif::stub_fmt_format)]
+fn c13_decode_ping_val() {
+    let id: [u8; 20] = kani::any();
+    let t: [u8; 2] = kani::any();
+    let v = Val::Dict(vec![
+        (b"a", Val::Dict(vec![(b"id", Val::Bytes(&id))])),
+        (b"q", Val::Bytes(b"ping")),
+        (b"t", Val::Bytes(&t)),
+        (b"y", Val::Bytes(b"q")),
+    ]);
+    let m = decode_val(v);
+    assert!(m.is_ok(), "C13: a well-formed ping is not decoded");
+    let m = m.unwrap();
+    assert!(m.transaction_id.len() == 2 && m.transaction_id[0] == t[0] && m.transaction_id[1] == t[1], "C13: transaction id altered");
+    match m.body {
+        MessageBody::Request(Request::Ping(p)) => {
+            let got: [u8; 20] = p.id.into();
+            let mut k = 0;
+            while k < 20 {
+                assert!(got[k] == id[k], "C13: ping id altered");
+                k += 1;
+            }
+        }
+        _ => assert!(false, "C13: ping decoded as a different message"),
+    }
+    kani::cover!(true, "end of harness reached");
+}
